@@ -1419,6 +1419,68 @@ fn run_c20(ch: &mut Choices, rep: &mut RunReport) -> Outcome {
             );
             return;
         }
+        // a subscriber that accepts broker-assigned aliases changes its subscriptions:
+        // the alias numbers the broker frees and hands out again must keep naming
+        // the right topic (the filter is a plain topic here, so the alias is freed)
+        if sub_alias_max.is_some() && !wildcard && sh.coin(1, 2) {
+            sh.probe("subscriber_changes_subscriptions_with_aliases");
+            let steps: [(&str, &str, &str); 2] = [("t/a", "t/b", "after-1"), ("t/b", "t/a", "after-2")];
+            let mut pk = 40u16;
+            for (leave, join, tag) in steps {
+                pk += 2;
+                s.send(&unsubscribe_bytes(sub_v5, pk, leave)).await;
+                s.send(&subscribe_bytes(sub_v5, pk + 1, join, 0, None)).await;
+                let (mut una, mut sua) = (false, false);
+                for _ in 0..8 {
+                    match s.recv(Duration::from_millis(500)).await {
+                        Rx::UnsubAck(id) if id == pk => una = true,
+                        Rx::SubAck(id) if id == pk + 1 => sua = true,
+                        Rx::Closed | Rx::Timeout => break,
+                        _ => {}
+                    }
+                    if una && sua {
+                        break;
+                    }
+                }
+                if !(una && sua) {
+                    sh.probe("resubscribe_not_acknowledged");
+                    break;
+                }
+                let payload = format!("{tag}").into_bytes();
+                p.send(&publish_bytes(pub_v5, join, &payload, 0, 0, false, None)).await;
+                let mut ok = false;
+                for _ in 0..8 {
+                    match s.recv(Duration::from_secs(1)).await {
+                        Rx::Publish { topic, payload: got, .. } => {
+                            if got == payload {
+                                if topic != join {
+                                    sh.viol(
+                                        "wrong_topic_or_payload:alias_reused_after_unsubscribe",
+                                        format!("after the subscriber left {leave} and subscribed {join}, the message published on {join} was decoded as {topic}"),
+                                    );
+                                    return;
+                                }
+                                ok = true;
+                                break;
+                            }
+                        }
+                        Rx::Bad(e) => {
+                            sh.viol("subscriber_cannot_decode_broker_bytes", format!("after a change of subscriptions: {e}"));
+                            return;
+                        }
+                        Rx::Closed | Rx::Timeout => break,
+                        _ => {}
+                    }
+                }
+                if !ok {
+                    sh.viol(
+                        "message_not_delivered_across_versions:after_resubscribe",
+                        format!("the message published on {join} after the subscriber subscribed to it was not delivered"),
+                    );
+                    return;
+                }
+            }
+        }
         // a router-initiated close with a reason (MQTT 5 only): the DISCONNECT
         // notification must be encodable and decodable too
         if pub_v5 && sh.coin(1, 2) {
